@@ -265,7 +265,16 @@ func run(eventHandler EventHandler, listeners []*listener, options *Options, add
 	}
 
 	if err := eng.start(ctx, numEventLoop); err != nil {
+		// Some event-loops may be running already, make them exit
+		// and wait for them before closing their pollers.
+		eng.eventLoops.iterate(func(_ int, el *eventloop) bool {
+			_ = el.poller.Trigger(queue.HighPriority, func(_ any) error { return errorx.ErrEngineShutdown }, nil)
+			return true
+		})
+		_ = eng.concurrency.Wait()
 		eng.closeEventLoops()
+		// Put the engine into the shutdown state, otherwise a concurrent Engine.Stop would wait forever.
+		eng.inShutdown.Store(true)
 		eng.opts.Logger.Errorf("gnet engine is stopping with error: %v", err)
 		return err
 	}
